@@ -622,7 +622,7 @@ class Engine:
             return True
         if z3.is_false(cond):
             return False
-        if z3.is_quantifier(cond):
+        if z3.is_quantifier(cond) or self.bound_depth > 0 or not is_light(cond):
             return None
         if not p.feasible_with(cond):
             return False
